@@ -15,10 +15,16 @@ for d in sorted(glob.glob('/verif/seeded/*')):
     fv = m.get('first_verdict') or ''
     if (hist.startswith('MISSED') or fv.startswith('MISSED')) and v == 'CAUGHT':
         v = 'MISSED at first, CAUGHT after strengthening'
+    other = ''
     if m.get('disposition') and v != 'CAUGHT':
-        v = 'NOT CAUGHT, by design (see disposition in meta.json)'
+        if m.get('caught_by_other_property'):
+            o = m['caught_by_other_property']
+            v = 'not by this property; CAUGHT by %s, whose statement names the changed function' % o
+            other = '(%s quick tier; disposition in meta.json)' % o
+        else:
+            v = 'NOT CAUGHT, by design: evaluation-order region (disposition in meta.json)'
     cut = lambda x, n: (x[:n] + '…') if len(x) > n else x
-    print("| %s | %s | %s | %s | %s |" % (os.path.basename(d), cut((m.get('summary') or '').replace('|', '\\|').replace('\n', ' '), 230), cut((m.get('needs') or '').replace('|', '\\|').replace('\n', ' '), 200), v, ', '.join(checks) or '(see meta.json)'))
+    print("| %s | %s | %s | %s | %s |" % (os.path.basename(d), cut((m.get('summary') or '').replace('|', '\\|').replace('\n', ' '), 230), cut((m.get('needs') or '').replace('|', '\\|').replace('\n', ' '), 200), v, ', '.join(checks) or other or '(see meta.json)'))
 
 if '--splice' in sys.argv:
     t = open('/verif/DESIGN.md').read()
